@@ -50,6 +50,29 @@ use crate::backend::vector::avx2::constants::{
 
 use curve25519_dalek_derive::unsafe_target_feature;
 
+/// Verification-only bound monitor (compiled only with `--cfg curve25519_dalek_verif` and debug
+/// assertions): every 26-bit-position limb must be below `lim26`, every 25-bit-position limb below
+/// `lim25` (the ceilings of 2^(26+b) and 2^(25+b) for the documented bound b).
+#[cfg(all(curve25519_dalek_verif, debug_assertions))]
+#[inline(never)]
+fn verif_check_bound(x: &FieldElement2625x4, lim26: u64, lim25: u64, what: &'static str) {
+    for v in x.0.iter() {
+        // SAFETY: u32x8 is a transparent wrapper around a 256-bit vector of eight u32 lanes.
+        let lanes: [u32; 8] = unsafe { core::mem::transmute(*v) };
+        for (j, l) in lanes.iter().enumerate() {
+            let lim = if j & 2 == 0 { lim26 } else { lim25 };
+            assert!(
+                (*l as u64) < lim,
+                "verif bound monitor: {} precondition violated (limb {} >= {})",
+                what,
+                l,
+                lim
+            );
+        }
+    }
+}
+
+
 /// Unpack 32-bit lanes into 64-bit lanes:
 /// ```ascii,no_run
 /// (a0, b0, a1, b1, c0, d0, c1, d1)
@@ -372,6 +395,8 @@ impl FieldElement2625x4 {
     /// The coefficients of the result are bounded with \\( b < 1 \\).
     #[inline]
     pub fn negate_lazy(&self) -> FieldElement2625x4 {
+        #[cfg(all(curve25519_dalek_verif, debug_assertions))]
+        verif_check_bound(self, 134124728, 67062364, "negate_lazy b < 0.999");
         // The limbs of self are bounded with b < 0.999, while the
         // smallest limb of 2*p is 67108845 > 2^{26+0.9999}, so
         // underflows are not possible.
@@ -395,6 +420,8 @@ impl FieldElement2625x4 {
     /// The coefficients of the result are bounded with \\( b < 1.6 \\).
     #[inline]
     pub fn diff_sum(&self) -> FieldElement2625x4 {
+        #[cfg(all(curve25519_dalek_verif, debug_assertions))]
+        verif_check_bound(self, 67575644, 33787822, "diff_sum b < 0.01");
         // tmp1 = (B, A, D, C)
         let tmp1 = self.shuffle(Shuffle::BADC);
         // tmp2 = (-A, B, -C, D)
@@ -595,6 +622,8 @@ impl FieldElement2625x4 {
     /// The coefficients of the result are bounded with \\( b < 0.007 \\).
     #[rustfmt::skip] // keep alignment of z* calculations
     pub fn square_and_negate_D(&self) -> FieldElement2625x4 {
+        #[cfg(all(curve25519_dalek_verif, debug_assertions))]
+        verif_check_bound(self, 189812532, 94906266, "square_and_negate_D b < 1.5");
         #[inline(always)]
         fn m(x: u32x8, y: u32x8) -> u64x4 {
             x.mul32(y)
@@ -699,6 +728,8 @@ impl Neg for FieldElement2625x4 {
     /// The coefficients of the result are bounded with \\( b < 0.0002 \\).
     #[inline]
     fn neg(self) -> FieldElement2625x4 {
+        #[cfg(all(curve25519_dalek_verif, debug_assertions))]
+        verif_check_bound(&self, 1073741824, 536870912, "neg b < 4.0");
         FieldElement2625x4([
             P_TIMES_16_LO - self.0[0],
             P_TIMES_16_HI - self.0[1],
@@ -777,6 +808,10 @@ impl Mul<&FieldElement2625x4> for &FieldElement2625x4 {
     #[rustfmt::skip] // keep alignment of z* calculations
     #[inline]
     fn mul(self, rhs: &FieldElement2625x4) -> FieldElement2625x4 {
+        #[cfg(all(curve25519_dalek_verif, debug_assertions))]
+        verif_check_bound(self, 379625063, 189812532, "mul lhs b < 2.5");
+        #[cfg(all(curve25519_dalek_verif, debug_assertions))]
+        verif_check_bound(rhs, 225726413, 112863207, "mul rhs b < 1.75");
         #[inline(always)]
         fn m(x: u32x8, y: u32x8) -> u64x4 {
             x.mul32(y)
